@@ -272,6 +272,12 @@ def run_edit(inp):
         # recogniser tokenises context-free and does not judge these texts
         stats["not_judged_keyword_as_name"] = 1
         return res
+    if ref_ok and not pol_ok:
+        # inside the grammar but refused by Polar (static checks behind the grammar: distribution arity, integer bounds,
+        # probability validation, type names ...).  The property demands rejection of texts OUTSIDE the grammar and equal
+        # meaning of equivalent spellings; it does not demand acceptance of every grammatical text.  Counted, not judged.
+        stats["accepted_by_reference_only"] = 1
+        return res
     if ref_ok != pol_ok:
         res["violations"].append({"sub": "accept/reject", "detail": {"edit": inp["edit"], "text": text,
                                                                    "reference_parser": "accepts" if ref_ok else "rejects: %s" % ref_err,
